@@ -1141,7 +1141,7 @@ func init() {
 	engine.Register(engine.Spec[Case]{
 		ID:    "C07",
 		Level: "exploration",
-		Rule: "programs of the core language enumerated completely over stated alphabets and compared with an independent reference evaluator (mc/checks/c07, written from the Fastly documentation): (1) every assignment operator x operand pair from 10 INTEGER, 5 FLOAT, 4 RTIME and 2 BOOL values x {literal, variable} where the reference defines the result (no overflow, divisor != 0, shift/rotate count 0..63), declaration defaults and STRING renderings; (2) every comparison of 21 typed atoms (set/not-set/empty strings, headers, literals) with ==, !=, <, >, <=, >= where defined, regex matches over 8 patterns in the RE2/PCRE common subset, truthiness, prefix !, and all &&/||/! combinations over a reduced leaf set; each comparison also in its dual form (a<b vs b>a, == vs !=, ~ vs !~) checked on the implementation alone; (3) every truth assignment of if / else-if / else chains up to 3 conditions, every switch over 5 controls x arrangements of up to 3 (quick) / 4 (thorough) cases (== and ~ tests) x fallthrough flags x default position, not-set propagation; (4) every ACL of up to 3 (quick) / 4 (thorough) entries from the 62 plain/negated prefixes of a 4-bit IPv4 sub-space (hosts without mask) x 18 addresses, and the same on a 3-bit IPv6 sub-space, plus every ACL of up to 2 (quick) / 3 (thorough) entries from 24 IPv4 and 16 IPv6 plain/negated prefixes with masks /0, /1 and at and next to the byte boundaries x 31 / 20 addresses inside, on the boundary of and outside each, against a longest-prefix reference; (5) 22 conditions (incl. the empty-but-set string) each evaluated in 6 positions (if, else if, elseif after two, !!, if() expression, && true) that must agree; (6) 432 mixed-type arithmetic cells (INTEGER op= FLOAT, RTIME op= FLOAT/INTEGER) compared with a committed snapshot of the pinned tree (drift only). non-trivial = every case; distinct = distinct program Round 3: += as the first write to a never-assigned STRING local and header.",
+		Rule: "programs of the core language enumerated completely over stated alphabets and compared with an independent reference evaluator (mc/checks/c07, written from the Fastly documentation): (1) every assignment operator x operand pair from 10 INTEGER, 5 FLOAT, 4 RTIME and 2 BOOL values x {literal, variable} where the reference defines the result (no overflow, divisor != 0, shift/rotate count 0..63), declaration defaults and STRING renderings; (2) every comparison of 21 typed atoms (set/not-set/empty strings, headers, literals) with ==, !=, <, >, <=, >= where defined, regex matches over 8 patterns in the RE2/PCRE common subset, truthiness, prefix !, and all &&/||/! combinations over a reduced leaf set; each comparison also in its dual form (a<b vs b>a, == vs !=, ~ vs !~) checked on the implementation alone; (3) every truth assignment of if / else-if / else chains up to 3 conditions, every switch over 5 controls x arrangements of up to 3 (quick) / 4 (thorough) cases (== and ~ tests) x fallthrough flags x default position, not-set propagation; (4) every ACL of up to 3 (quick) / 4 (thorough) entries from the 62 plain/negated prefixes of a 4-bit IPv4 sub-space (hosts without mask) x 18 addresses, and the same on a 3-bit IPv6 sub-space, plus every ACL of up to 2 (quick) / 3 (thorough) entries from 24 IPv4 and 16 IPv6 plain/negated prefixes with masks /0, /1 and at and next to the byte boundaries x 31 / 20 addresses inside, on the boundary of and outside each, against a longest-prefix reference; (5) 22 conditions (incl. the empty-but-set string) each evaluated in 6 positions (if, else if, elseif after two, !!, if() expression, && true) that must agree; (6) 432 mixed-type arithmetic cells (INTEGER op= FLOAT, RTIME op= FLOAT/INTEGER) compared with a committed snapshot of the pinned tree (drift only). non-trivial = every case; distinct = distinct program Round 3: += as the first write to a never-assigned STRING local and header. Round 4: 180 INTEGER shift / rotate cells the reference refuses (negative left operand, counts 64, 65, 70, -1, -130; literal and variable count) compared with the pinned snapshot (drift only).",
 		Gen:  gen07,
 		Key:  func(c Case) string { return c.Decls + "\x00" + c.Probe },
 		Run:  run,
